@@ -435,6 +435,28 @@ def eval_path(mirobj, dump, params, arg_terms, overflow_checks, decide, k_loop):
         ii += 1
 
 
+def modelled_arms_guard(mirobj):
+    """Jump / Switch / Call / Return are modelled by hand after eval.rs (their MIR is iterator and hash-map plumbing). The model
+    was written for one code shape: the multiset of callees on the normal paths of each of those arms is compared with the one
+    recorded in tv/modelled_arms.json; if an arm now calls something else (a binary search instead of `find_map`, another
+    frame operation, ..) the model no longer speaks for the code and nothing that runs through that arm is decided."""
+    if getattr(mirobj, "_arms_guard", None) is not None:
+        return mirobj._arms_guard
+    want = json.load(open(os.path.join(os.path.dirname(os.path.abspath(__file__)), "modelled_arms.json")))
+    bad = {}
+    for v, callees in want.items():
+        try:
+            got = M.arm_callees(mirobj, v)
+        except M.Unsupported as e:
+            bad[v] = str(e)
+            continue
+        if got != callees:
+            diff = sorted(set(got) ^ set(callees)) or ["same callees, different multiplicity"]
+            bad[v] = "calls differ: " + "; ".join(diff)[:300]
+    mirobj._arms_guard = bad
+    return bad
+
+
 def check_program_cf(mirobj, prog, dump, k_loop=3, timeout_ms=20000):
     """control-flow version: path-wise on both sides (evaluator paths x CLIF paths)"""
     out = {"status": "ok", "queries": 0, "finding": None, "reason": "", "profiles": {}}
@@ -451,6 +473,11 @@ def check_program_cf(mirobj, prog, dump, k_loop=3, timeout_ms=20000):
                 if k not in CF_SUPPORTED:
                     out["status"], out["reason"] = "unsupported", f"mir: LIR instruction {k}"
                     return out
+    bad_arms = modelled_arms_guard(mirobj)
+    used = {re.match(r"\w+", text).group(0) for bl in dump.get("lir_blocks", {}).values() for _, ins in bl for text in ins}
+    for v in sorted(set(bad_arms) & used):
+        out["status"], out["reason"] = "unsupported", f"mir: the arm of Instruction::{v} in eval is no longer the code its model was written for ({bad_arms[v]})"
+        return out
     if any(l == "return_ptr=true" for l in dump.get("lir_meta", {}).get("pkg.main", [])) or any(t not in TAG_OF for _, t in entry.params):
         out["status"], out["reason"] = "unsupported", "mir: entry function takes or returns a non-scalar"
         return out
